@@ -458,7 +458,15 @@ def oracle_string(T, fails, s, o_parse, o_name, o_sym, tag=""):
     elif exp:
         p, u = exp[0]
         want = ("ok", T.pdef[p][0] + T.units[u].symbol)
-        if o_sym != want:
+        written = T.units.get(p + u) if p else None       # prefix + unit composes the name of a written definition
+        if written is not None and written.name == p + u and written.symbol != want[1] and T.units[u].mult:
+            if o_sym == want:
+                fails.add(f"symbol-of-written-prefixed-unit:{s}",
+                          f"get_symbol({s!r}) = {o_sym[1]!r} although {s!r} denotes the written unit {p + u!r} whose symbol is "
+                          f"{written.symbol!r} (what _get_symbol and the short format report)", rp)
+            elif o_sym != ("ok", written.symbol):
+                fails.add(f"symbol:{s}", f"get_symbol({s!r}) gives {o_sym}, expected {('ok', written.symbol)}", rp)
+        elif o_sym != want:
             fails.add(f"symbol:{s}", f"get_symbol({s!r}) gives {o_sym}, expected {want}", rp)
     elif o_sym != ("err", "KUndefined"):
         fails.add(f"symbol-undefined:{s}", f"get_symbol({s!r}) gives {o_sym} for a string with no reading", rp)
